@@ -22,11 +22,16 @@ DataClasses == {"valid", "truncated", "oversized", "random", "status404", "statu
 DistAnswers == {"200", "status404", "status500", "empty", "oversized", "random", "redirect-loop", "redirect-elsewhere",
                 "retry-after-seconds", "retry-after-date", "slow-headers", "slow-body"}
 
+\* right after start-up the first valid submissions for MANY configured logs arrive at once (every feeder goroutine and every bastion stream fires
+\* after a restart): whatever the witness sets up per log on first use is set up by many goroutines at the same time
+StormShapes == {"storm-large", "storm-small"}
+
 VARIABLES scen, phase, outcome
 vars == <<scen, phase, outcome>>
 
 Init == /\ scen \in [feeder : Feeders, wit : WitnessStates, cp : CpClasses, data : DataClasses]
                     \cup [feeder : {"distributor"}, wit : {"held"}, cp : {"valid"}, data : DistAnswers]
+                    \cup [feeder : {"storm"}, wit : {"none"}, cp : {"valid"}, data : StormShapes]
         /\ phase = "start" /\ outcome = "none"
 
 \* a cycle ends with the cosigned checkpoint or with an error - nothing else
